@@ -13,6 +13,7 @@ import (
 	"os/exec"
 	"path/filepath"
 	"runtime"
+	"runtime/pprof"
 	"sort"
 	"strconv"
 	"strings"
@@ -80,6 +81,11 @@ func runShard(args []string) (code int) {
 		return 2
 	}
 	runtime.GOMAXPROCS(2)
+	if pf := os.Getenv("VERIF_PROF"); pf != "" {
+		f, _ := os.Create(pf)
+		pprof.StartCPUProfile(f)
+		defer pprof.StopCPUProfile()
+	}
 	t0 := time.Now()
 	deadline := t0.Add(budget(c, *tier))
 	res := &checks.Result{Property: *id, Tier: *tier, Shard: *shard, Exhaustive: true, BoundDone: map[string]int{}}
